@@ -252,7 +252,9 @@ def outgroupPlan (strict : Bool) (S : List String) (t1 : T) : Res Plan :=
   (check (!seff.isEmpty) (.err "none")).bind fun _ =>
   (ofOption (tempRootNeighbour t1 seff) (.err "all")).bind fun spath =>
   let a := rerootP t1 spath none []
-  (check (decide (1 < a.1.kids.length)) (.panic "nil ancestor")).bind fun _ =>
+  -- a tree of two nodes: `LeastCommonAncestorRecur` fails on `NodeIndex(nil)` and returns
+  -- (nil, nil, -1, -1): "not monophyletic" — refused in strict mode, `len(n.br)` on a nil node otherwise
+  (check (decide (1 < a.1.kids.length)) (if strict then .err "notmono" else .panic "nil ancestor")).bind fun _ =>
   (lcaRes seff a.1).bind fun f =>
   (check (!(f.diff != 0 && strict)) (.err "notmono")).bind fun _ =>
   let b := rerootP a.1 f.p none a.2.2
